@@ -27,6 +27,10 @@ PINS = {
     # qual -> AST digest of the helper as it was when the abstraction was written (py2lean.pin_of)
     'time.py::TimeInterval._default_to_zulu': '38a377e882923ea8',
     'utils/functions.py::default_to_zulu': 'e4c433c062136134',
+    # helpers whose *meaning* a unit assumes without translating them
+    'structures.py::GeoPolygon.bounds': 'd90aead0fc54814e',          # SrcMember: `self.bounds` is the outline's bounding box
+    'collections.py::Track.__init__': '01f0c36a2b9a4fbb',            # SrcColl: `type(self)(xs)` is the model's `rewrap`
+    'collections.py::CollectionBase.__init__': '998def96113cc433',
 }
 
 
@@ -196,7 +200,8 @@ def coll_unit():
     py2lean.LEAN_TYPE.setdefault('Query', 'Unit')
     return Unit('SrcColl', src, 'GV.Src.Coll', ['GeoVerif.Gen.SrcTime', 'GeoVerif.Model.Collection', 'GeoVerif.Model.PyPrelude'], insts,
                 {'GV.Coll': C, 'TI': 'TimeInterval'},
-                pins={'utils/functions.py::default_to_zulu': PINS['utils/functions.py::default_to_zulu']},
+                pins={k: PINS[k] for k in ('utils/functions.py::default_to_zulu', 'collections.py::Track.__init__',
+                                           'collections.py::CollectionBase.__init__')},
                 attr_types={('GV.Coll', 'geoshapes'): ('{}.shapes', 'List GV.Coll.Shape'),
                             ('GV.Coll.Shape', 'dt'): ('{}.dt', 'Opt TI'), ('Query', 'dt'): ('qdt', 'Opt TI')},
                 intrinsics={'default_to_zulu': zulu},
@@ -254,14 +259,59 @@ def member_unit():
             ('Poly', 'bounds'): ('bnd', 'Tuple4 R')}
     return Unit('SrcMember', src, 'GV.Src.Member', ['GeoVerif.Gen.SrcPip', 'GeoVerif.Model.Pip'], insts,
                 {'Poly': 'GeoPolygon', 'Box': 'GeoBox'}, attr_types=attr, abstract=abstract,
+                pins={'structures.py::GeoPolygon.bounds': PINS['structures.py::GeoPolygon.bounds']},
                 hooks={'isinstance': lambda typ: None},
                 ctx_params=[('hc', 'List GV.Pt → GV.Pt → Bool'), ('nw', 'GV.Pt'), ('se', 'GV.Pt'), ('outline', 'List GV.Pt'),
                             ('holes', 'List (List GV.Pt)'), ('bnd', 'Rat × Rat × Rat × Rat')],
                 externals=_pip_externals())
 
 
+# ----------------------------------------------------------------------------------------------------------
+# geostructures/collections.py :: Track.__getitem__ (slice by datetime), Track.has_duplicate_timestamps   (C17)
+#
+# the slice bounds are `a b : Option Int` (`val.start`, `val.stop` as instants; `default_to_zulu` pinned as for SrcColl);
+# `x.start` / `x.end` of a member are the model's `startD` / `endD` (a Track holds no time-less shape); `Track(xs)` is
+# the model's `mkTrack`; the local set `_ts` is the list of its elements, newest first.
+
+def track_unit():
+    src = py2lean.Source(_repo('collections.py'))
+    T = 'Track'
+    insts = [
+        Inst(f'{T}.__getitem__', 'getitem', [('self', 'GV.Coll'), ('val', 'Slice')], 'Except GV.Coll'),
+        Inst(f'{T}.has_duplicate_timestamps', 'hasDup', [('self', 'GV.Coll')], 'Bool'),
+    ]
+    py2lean.LEAN_TYPE.setdefault('Slice', 'Unit')
+
+    def zulu(tr, args):
+        if args[-1].typ != 'Dt':
+            raise Unsupported(f'default_to_zulu applied to {args[-1].typ}')
+        return Val(args[-1].text, 'Dt')
+
+    def track_ctor(tr, args):
+        if len(args) != 1 or args[0].typ != 'List GV.Coll.Shape':
+            raise Unsupported(f'Track({", ".join(a.typ for a in args)})')
+        v = Val(f'(GV.Coll.mkTrack {args[0].text})', 'GV.Coll')
+        v.raises = True
+        return v
+
+    def local_type(qual, name):
+        return {('Track.has_duplicate_timestamps', '_ts'): 'Set Opt TI'}.get((qual, name))
+
+    attr = {('GV.Coll', 'geoshapes'): ('{}.shapes', 'List GV.Coll.Shape'),
+            ('GV.Coll.Shape', 'dt'): ('{}.dt', 'Opt TI'), ('GV.Coll.Shape', 'start'): ('{}.startD', 'Dt'),
+            ('GV.Coll.Shape', 'end'): ('{}.endD', 'Dt'),
+            ('Slice', 'start'): ('a', 'Opt Dt'), ('Slice', 'stop'): ('b', 'Opt Dt')}
+    return Unit('SrcTrack', src, 'GV.Src.Track', ['GeoVerif.Model.Track', 'GeoVerif.Model.PyPrelude'], insts,
+                {'GV.Coll': T}, attr_types=attr,
+                pins={k: PINS[k] for k in ('utils/functions.py::default_to_zulu', 'collections.py::Track.__init__',
+                                           'collections.py::CollectionBase.__init__')},
+                intrinsics={'default_to_zulu': zulu, 'Track': track_ctor},
+                hooks={'isinstance': lambda typ: None, 'always_truthy': ('TI', 'Dt'), 'local_type': local_type},
+                ctx_params=[('a', 'Option Int'), ('b', 'Option Int')])
+
+
 UNITS = {'SrcTime': time_unit, 'SrcBase': base_unit, 'SrcMulti': multi_unit, 'SrcColl': coll_unit, 'SrcPip': pip_unit,
-         'SrcMember': member_unit}
+         'SrcMember': member_unit, 'SrcTrack': track_unit}
 
 
 def render(name):
